@@ -141,23 +141,27 @@ func H_C15_parse() {
 	must(err)
 
 	kind := verif.Choose("memo", 9)
-	extra := 0
+	extra, tail := 0, 0
 	var memo string
 	switch kind {
 	case 0:
 		extra = verif.Choose("extra-root-keys", 3)
-		memo = verif.EncodeMemo(&core.PayloadWrapper{Orbiter: pl}, extra)
+		if extra == 0 {
+			tail = verif.Choose("bytes-after-the-document", 5)
+		}
+		memo = verif.EncodeMemoTail(&core.PayloadWrapper{Orbiter: pl}, extra, tail)
 	default:
 		memo = []string{"", "", "null", "[]", "{}", `{"orbiter":null}`, `{"orbiter":1}`, `{"other":{}}`, `{"orbiter":{},"orbiter2":{}}`}[kind]
 	}
 	got, perr := parser.ParsePayload([]byte(memo))
 	if perr != nil {
 		verif.Cover("refused")
-		verif.Assert(!(kind == 0 && extra == 0 && wrong == 0), "memo-of-a-constructor-built-payload-is-accepted")
+		verif.Assert(!(kind == 0 && extra == 0 && wrong == 0 && (tail == 0 || tail == 4)), "memo-of-a-constructor-built-payload-is-accepted")
 		return
 	}
 	verif.Cover("accepted")
 	verif.Assert(kind == 0 && extra == 0, "accepted-memo-is-a-single-orbiter-root-key-with-a-payload")
+	verif.Assert(tail == 0 || tail == 4, "accepted-memo-is-one-json-document")
 	verif.Assert(wrong == 0, "attributes-of-an-unregistered-type-are-refused")
 	if !(kind == 0 && extra == 0 && wrong == 0) {
 		return
